@@ -73,7 +73,7 @@ fn c13_cross<F: Fam, G: Fam>(ctx: &Ctx, ast: &Ast, bytes: &[u8], level: u8) {
                     );
                     continue;
                 }
-                let native = G::from_ast(ast);
+                let native = guard(|| G::from_ast(ast)).ok().flatten();
                 match (cont, native) {
                     (Some(Ok(p)), Some(q)) if p == q && endpos == bytes.len() => {}
                     (c, _) => ctx.violation(
@@ -88,9 +88,9 @@ fn c13_cross<F: Fam, G: Fam>(ctx: &Ctx, ast: &Ast, bytes: &[u8], level: u8) {
 }
 
 fn c13_native<F: Fam>(ctx: &Ctx, ast: &Ast, bytes: &[u8]) {
-    let want: Out<F> = match F::from_ast(ast) {
-        Some(p) => Out::Pkt(p),
-        None => return,
+    let want: Out<F> = match guard(|| F::from_ast(ast)) {
+        Ok(Some(p)) => Out::Pkt(p),
+        _ => return,
     };
     let ob = front::blocking::<F>(bytes);
     let (oa, _) = front::async_whole::<F>(bytes);
@@ -412,8 +412,9 @@ fn c14_write<F: Fam>(ctx: &Ctx, ast: &Ast, pkt: &F::Packet, bytes: &[u8]) {
     }
     // streaming encoder into io::Write
     let mut body = Vec::new();
-    if F::body(pkt, &mut body).is_none() {
-        return;
+    match guard(|| F::body(pkt, &mut body).is_none()) {
+        Ok(false) => {}
+        _ => return,
     }
     let m = body.len();
     for k in 0..=m {
@@ -554,13 +555,13 @@ pub fn c14(ctx: &Ctx) {
         ctx.count(&format!("{}_packets", F::NAME), hosts.len() as u64);
         let triples = std::sync::atomic::AtomicU64::new(0);
         hosts.par_iter().for_each(|a| {
-            let pkt = match F::from_ast(a) {
-                Some(p) => p,
-                None => return,
+            let pkt = match guard(|| F::from_ast(a)) {
+                Ok(Some(p)) => p,
+                _ => return,
             };
-            let bytes = match F::encode(&pkt) {
-                Ok(b) => b.as_ref().to_vec(),
-                Err(_) => return,
+            let bytes = match guard(|| F::encode(&pkt)) {
+                Ok(Ok(b)) => b.as_ref().to_vec(),
+                _ => return,
             };
             if bytes.len() > 20_000 {
                 return;
@@ -631,13 +632,13 @@ fn c14_read_sparse<F: Fam>(ctx: &Ctx, ast: &Ast, pkt: &F::Packet, bytes: &[u8]) 
 
 /// all fault positions of one value (read and write side)
 pub fn c14_one<F: Fam>(ctx: &Ctx, a: &Ast) {
-    let pkt = match F::from_ast(a) {
-        Some(p) => p,
-        None => return,
+    let pkt = match guard(|| F::from_ast(a)) {
+        Ok(Some(p)) => p,
+        _ => return,
     };
-    let bytes = match F::encode(&pkt) {
-        Ok(b) => b.as_ref().to_vec(),
-        Err(_) => return,
+    let bytes = match guard(|| F::encode(&pkt)) {
+        Ok(Ok(b)) => b.as_ref().to_vec(),
+        _ => return,
     };
     if bytes.len() <= 400 {
         c14_read::<F>(ctx, a, &pkt, &bytes);
